@@ -2,6 +2,8 @@
    Model: Model/CRC.v — CRC-32/IEEE (bitwise), crc32Window (newCRC32Window / update as in
    par2/crc32.go) and the greedy scan of fillShardInfos (par2/decoder.go). *)
 From Gopar Require Import Model.Base Model.CRC Proofs.CRCFacts Proofs.ScanFacts.
+From Gopar Require Import Model.GoPath Model.FS Model.Par2 Proofs.Par2Verify Proofs.Par2Clean Proofs.Par2Counts.
+From Coq Require Import List. Import ListNotations.
 Open Scope N_scope.
 
 (* the rolling update is exact for EVERY window size >= 4 and every window content:
@@ -56,3 +58,35 @@ Example C16_example :
   | _ => False
   end.
 Proof. vm_compute. reflexivity. Qed.
+
+(* FROM THE SCAN TO VERIFY'S COUNTS (Proofs/Par2Counts.v), for every archive state with distinct file ids:
+   a slice whose zero-padded window occurs at ANY offset p of ANY surviving protected file (of byte values), with no
+   window carrying a registered checksum pair starting within S bytes before p (= not overlapping another
+   surviving slice), is COUNTED USABLE: its slot of the shard table is filled - whichever file and offset it is
+   found at; the premise is needed (CNShadow.cn1_without_unshadowed_refuted) *)
+Theorem C16_present_slice_counted : forall md5 ix fs ds st1,
+  load_all md5 ix (io_init fs []) = (Ok ds, st1) ->
+  NoDup (map di_id (d_rec (ds_dec ds))) ->
+  let infos := d_rec (ds_dec ds) in let S := N.to_nat (d_slice (ds_dec ds)) in
+  forall i k j data p,
+    (j < length infos)%nat ->
+    fs_lookup fs (file_path ix (di_name (nth j infos dinfo0))) = Some data -> wf_bytes data ->
+    (p < length data)%nat ->
+    pair_at infos i k (md5 (window_at S data p), crc32 (window_at S data p)) ->
+    (forall q, (q < p)%nat -> (p < q + S)%nat -> ~ matches md5 (ds_tbl ds) (window_at S data q)) ->
+    nth k (fi_shards (nth i (ds_fis ds) dfi)) None <> None.
+Proof. exact load_all_credits_present_slice. Qed.
+Print Assumptions C16_present_slice_counted.
+
+(* hence "only slices overlapping the edit become unusable": the unusable count is at most the number of slots
+   for which NO such unshadowed occurrence exists anywhere in the surviving protected files *)
+Theorem C16_unusable_bounded_by_absent : forall md5 ix fs ds st1,
+  load_all md5 ix (io_init fs []) = (Ok ds, st1) ->
+  NoDup (map di_id (d_rec (ds_dec ds))) ->
+  forall L : list (nat * nat),
+    (forall i k, (i < length (d_rec (ds_dec ds)))%nat ->
+        (k < length (di_pairs (nth i (d_rec (ds_dec ds)) dinfo0)))%nat ->
+        ~ occurs_unshadowed md5 ix fs ds i k -> In (i, k) L) ->
+    (c_unusable (shard_counts ds) <= length L)%nat.
+Proof. exact unusable_bounded_by_absent. Qed.
+Print Assumptions C16_unusable_bounded_by_absent.
